@@ -120,6 +120,14 @@ class GT:
             self.w.require('transpose-axes-follow-the-MPS/MPO-leg-convention', False)
         return g
 
+    def copy(self):
+        g = self._like()
+        g.copied_from = self
+        return g
+
+    def clone(self):
+        return self.copy()
+
     def conj(self):
         g = self._like(conj=not self.is_conj)
         g.uid = self.uid
